@@ -480,4 +480,275 @@ theorem tables (m : Mode) : Tables (progs m) where
   initMem := by cases m <;> decide
   initW := by cases m <;> decide
 
+/-! ### per-thread simulation -/
+
+theorem localStep_stack' (P : Progs) (len : Nat) (t : Thread) : ∃ b, (localStep P len t).stack = nextStack P t.stack b := by
+  unfold localStep
+  cases hs : t.stack with
+  | nil => exact ⟨true, by simp [hs, nextStack]⟩
+  | cons fr rest =>
+    simp only
+    cases ho : topOp P (fr :: rest) with
+    | none => exact ⟨true, rfl⟩
+    | some op => cases op <;> first | exact ⟨true, rfl⟩ | exact ⟨_, rfl⟩
+
+theorem opStep_stack (P : Progs) (nw : Nat) (t : Thread) (g : Shared) :
+    (opStep P nw t g).1.stack = t.stack ∨ ∃ b, (opStep P nw t g).1.stack = nextStack P t.stack b := by
+  unfold opStep
+  split
+  all_goals first
+    | exact Or.inr ⟨true, rfl⟩
+    | (split <;> first | exact Or.inr ⟨true, rfl⟩ | exact Or.inl rfl)
+    | exact Or.inr (localStep_stack' P g.len t)
+
+theorem opStep_len (P : Progs) (nw : Nat) (t : Thread) (g : Shared) : (opStep P nw t g).2.len = g.len := by
+  unfold opStep
+  split
+  all_goals first
+    | rfl
+    | (split <;> rfl)
+
+theorem opStep_mem (P : Progs) (root : Fn) (hcl : ∀ stk ∈ stacksOf P root, ∀ b, nextStack P stk b ∈ stacksOf P root)
+    (nw : Nat) (t : Thread) (g : Shared) (ht : t.stack ∈ stacksOf P root) : (opStep P nw t g).1.stack ∈ stacksOf P root := by
+  rcases opStep_stack P nw t g with h | ⟨b, h⟩
+  · rw [h]; exact ht
+  · rw [h]; exact hcl _ ht b
+
+/-- one micro-op of a worker is a stuttering step or the step of `stepWorker` -/
+theorem wthread_sim (P : Progs) (T : Tables P) (t : Thread) (ht : t.stack ∈ stacksOf P .workerMain) (g : Shared) (nw : Nat) :
+    ((opStep P nw t g).2 = g ∧ absW P g.len (opStep P nw t g).1 = absW P g.len t) ∨
+      (absW P g.len (opStep P nw t g).1, (opStep P nw t g).2) = wstepLocal (absW P g.len t) g := by
+  by_cases he : t.stack = []
+  · left; rw [opStep_idle P nw t g he]; exact ⟨rfl, rfl⟩
+  · by_cases hs : settledStk P t.stack = true
+    · right
+      rw [absW_settled P g.len t hs]
+      obtain ⟨stk, i, l, r⟩ := t
+      exact siteW_sound P stk (T.sitesW stk ht he hs) i l r g nw
+    · left
+      have hs' : settledStk P t.stack = false := by simpa using hs
+      rw [opStep_local P nw t g hs']
+      refine ⟨rfl, ?_⟩
+      unfold absW
+      rw [settle_localStep P g.len t hs']
+      obtain ⟨b, hb⟩ := localStep_stack' P g.len t
+      rw [hb]
+      exact T.fuelW _ (T.closedW _ ht b)
+
+/-- one micro-op of the controller is a stuttering step or the step of `stepMaster`; the cached `length` stays the data
+size while the controller is in the parallel section -/
+theorem mthread_sim (P : Progs) (T : Tables P) (t : Thread) (ht : t.stack ∈ stacksOf P .apply) (g : Shared) (nw : Nat)
+    (hl : phaseA (absM P g.len t) = false → (settle P g.len settleFuel t).length = g.len) :
+    ((opStep P nw t g).2 = g ∧ settle P g.len settleFuel (opStep P nw t g).1 = settle P g.len settleFuel t) ∨
+      ((absM P g.len (opStep P nw t g).1, (opStep P nw t g).2) = mstepLocal (absM P g.len t) g nw ∧
+        (phaseA (absM P g.len (opStep P nw t g).1) = false →
+          (settle P g.len settleFuel (opStep P nw t g).1).length = g.len)) := by
+  by_cases he : t.stack = []
+  · left; rw [opStep_idle P nw t g he]; exact ⟨rfl, rfl⟩
+  · by_cases hs : settledStk P t.stack = true
+    · right
+      rw [absM_settled P g.len t hs] at hl ⊢
+      rw [settle_settled P g.len _ t hs] at hl
+      obtain ⟨stk, i, l, r⟩ := t
+      exact siteM_sound P stk (T.sitesM stk ht he hs) i l r g nw hl
+    · left
+      have hs' : settledStk P t.stack = false := by simpa using hs
+      rw [opStep_local P nw t g hs']
+      refine ⟨rfl, ?_⟩
+      rw [settle_localStep P g.len t hs']
+      obtain ⟨b, hb⟩ := localStep_stack' P g.len t
+      rw [hb]
+      exact T.fuelM _ (T.closedM _ ht b)
+
+/-! ### (4) whole states and schedules -/
+
+theorem map_set' {α β : Type} (f : α → β) (l : List α) (k : Nat) (x : α) : (l.set k x).map f = (l.map f).set k (f x) := by
+  induction l generalizing k with
+  | nil => rfl
+  | cons a t ih =>
+    cases k with
+    | zero => rfl
+    | succ k => simp [ih]
+
+theorem abs_eq (P : Progs) (s : IState) :
+    abs P s = mkState (absM P s.sh.len s.ctl) (s.ws.map (absW P s.sh.len)) s.sh := rfl
+
+theorem run_append (s : State) (es es' : List Ev) : run s (es ++ es') = run (run s es) es' := by
+  induction es generalizing s with
+  | nil => rfl
+  | cons e es ih => exact ih (step s e)
+
+/-- the simulation relation: the stacks are stacks of the control skeleton, the controller's cached length is the data size
+in the parallel section, and the abstraction is a reachable state of the hand-written system -/
+structure Sim (P : Progs) (n : Nat) (s : IState) : Prop where
+  cst : s.ctl.stack ∈ stacksOf P .apply
+  wst : ∀ t ∈ s.ws, t.stack ∈ stacksOf P .workerMain
+  clen : phaseA (absM P s.sh.len s.ctl) = false → (settle P s.sh.len settleFuel s.ctl).length = s.sh.len
+  reach : ∃ es', abs P s = run (init n) es'
+
+theorem absM_idle (P : Progs) (len : Nat) (t : Thread) (h : t.stack = []) : absM P len t = .idle := by
+  have hs : settledStk P t.stack = true := by rw [h]; rfl
+  rw [absM_settled P len t hs]
+  simp [pointM, h, topOp]
+
+theorem sim_init (P : Progs) (T : Tables P) (n : Nat) : Sim P n (iinit n) where
+  cst := by simp [iinit, stacksOf]
+  wst := by
+    intro t ht
+    simp only [iinit] at ht
+    rw [List.eq_of_mem_replicate ht]
+    exact T.initMem
+  clen := by
+    intro h
+    rw [absM_idle P _ _ rfl] at h
+    simp [phaseA] at h
+  reach := by
+    refine ⟨[], ?_⟩
+    have hm : absM P (iinit n).sh.len (iinit n).ctl = .idle := absM_idle _ _ _ rfl
+    have hw : (iinit n).ws.map (absW P (iinit n).sh.len) = List.replicate n (.wait 1) := by
+      simp only [iinit, List.map_replicate]; rw [T.initW]
+    rw [abs_eq, hm, hw]; rfl
+
+/-- a worker step: stutter or `stepWorker` -/
+theorem abs_worker (P : Progs) (T : Tables P) (s : IState) (k : Nat) (hw : ∀ t ∈ s.ws, t.stack ∈ stacksOf P .workerMain) :
+    abs P (istep P s (.thr (k + 1))) = abs P s ∨ abs P (istep P s (.thr (k + 1))) = step (abs P s) (.thr (k + 1)) := by
+  cases hk : s.ws[k]? with
+  | none => left; simp [istep, hk]
+  | some t =>
+    have htm : t ∈ s.ws := List.mem_of_getElem? hk
+    have hlen := opStep_len P (s.ws.length + 1) t s.sh
+    have hi : abs P (istep P s (.thr (k + 1))) =
+        mkState (absM P s.sh.len s.ctl) ((s.ws.map (absW P s.sh.len)).set k (absW P s.sh.len (opStep P (s.ws.length + 1) t s.sh).1))
+          (opStep P (s.ws.length + 1) t s.sh).2 := by
+      simp only [istep, hk, abs_eq, hlen, map_set']
+    have hk' : (s.ws.map (absW P s.sh.len))[k]? = some (absW P s.sh.len t) := by simp [hk]
+    rcases wthread_sim P T t (hw t htm) s.sh (s.ws.length + 1) with ⟨hg, ha⟩ | hstep
+    · left
+      rw [hi, hg, ha, set_self _ _ _ hk']; rfl
+    · right
+      rw [hi]
+      have : step (abs P s) (.thr (k + 1)) = stepWorker (abs P s) k := rfl
+      rw [this, stepWorker_local (abs P s) k (absW P s.sh.len t) hk']
+      have hsh : shOf (abs P s) = s.sh := rfl
+      rw [hsh, ← hstep]; rfl
+
+/-- a controller step: stutter or `stepMaster` -/
+theorem abs_master (P : Progs) (T : Tables P) (s : IState) (hc : s.ctl.stack ∈ stacksOf P .apply)
+    (hl : phaseA (absM P s.sh.len s.ctl) = false → (settle P s.sh.len settleFuel s.ctl).length = s.sh.len) :
+    (abs P (istep P s (.thr 0)) = abs P s ∨ abs P (istep P s (.thr 0)) = step (abs P s) (.thr 0)) ∧
+      (phaseA (absM P (istep P s (.thr 0)).sh.len (istep P s (.thr 0)).ctl) = false →
+        (settle P (istep P s (.thr 0)).sh.len settleFuel (istep P s (.thr 0)).ctl).length = (istep P s (.thr 0)).sh.len) := by
+  have hlen := opStep_len P (s.ws.length + 1) s.ctl s.sh
+  have hi : abs P (istep P s (.thr 0)) =
+      mkState (absM P s.sh.len (opStep P (s.ws.length + 1) s.ctl s.sh).1) (s.ws.map (absW P s.sh.len))
+        (opStep P (s.ws.length + 1) s.ctl s.sh).2 := by
+    simp only [istep, abs_eq, hlen]
+  have hi2 : (istep P s (.thr 0)).sh.len = s.sh.len := hlen
+  have hi3 : (istep P s (.thr 0)).ctl = (opStep P (s.ws.length + 1) s.ctl s.sh).1 := rfl
+  rw [hi2, hi3]
+  rcases mthread_sim P T s.ctl hc s.sh (s.ws.length + 1) hl with ⟨hg, ha⟩ | ⟨hstep, hl'⟩
+  · refine ⟨Or.inl ?_, ?_⟩
+    · rw [hi, hg]; unfold absM; rw [ha]; rfl
+    · unfold absM at hl ⊢; rw [ha]; exact hl
+  · refine ⟨Or.inr ?_, hl'⟩
+    rw [hi]
+    have : step (abs P s) (.thr 0) = stepMaster (abs P s) := rfl
+    rw [this, stepMaster_local (abs P s)]
+    have hsh : shOf (abs P s) = s.sh := rfl
+    have hnw : numWorkers (abs P s) = s.ws.length + 1 := by simp [numWorkers, abs]
+    have hm : (abs P s).m = absM P s.sh.len s.ctl := rfl
+    rw [hsh, hnw, hm, ← hstep]; rfl
+
+theorem absM_entry (P : Progs) (T : Tables P) (len i l r : Nat) : absM P len ⟨[⟨.apply, 0⟩], i, l, r⟩ = .setIdx := by
+  unfold absM
+  rw [settle_sym]
+  have h := all4_spec _ T.entry (decide (i < l)) (decide (i < len))
+  simp only [decide_eq_true_eq] at h
+  simp only [pointM, Sym.conc, h]
+
+/-- `apply` when the controller is idle: the step of the hand-written system (every worker is parked, so no cached length
+is invalidated); otherwise nothing happens -/
+theorem abs_apply (P : Progs) (T : Tables P) (n : Nat) (s : IState) (L : Nat) (hS : Sim P n s) :
+    (abs P (istep P s (.apply L)) = abs P s ∨ abs P (istep P s (.apply L)) = step (abs P s) (.apply L)) ∧
+      (istep P s (.apply L)).ctl.stack ∈ stacksOf P .apply ∧
+      (phaseA (absM P (istep P s (.apply L)).sh.len (istep P s (.apply L)).ctl) = false →
+        (settle P (istep P s (.apply L)).sh.len settleFuel (istep P s (.apply L)).ctl).length = (istep P s (.apply L)).sh.len) := by
+  cases hst : s.ctl.stack with
+  | cons fr rest =>
+    have : istep P s (.apply L) = s := by simp [istep, hst]
+    rw [this]
+    exact ⟨Or.inl rfl, hS.cst, hS.clen⟩
+  | nil =>
+    have hidle : (abs P s).m = .idle := absM_idle P _ _ hst
+    obtain ⟨es', hes⟩ := hS.reach
+    have hI : Inv (abs P s) := by rw [hes]; exact (inv_reach n es').1
+    have hpark := hI.pa (by rw [hidle]; rfl)
+    have hws : s.ws.map (absW P L) = s.ws.map (absW P s.sh.len) := by
+      apply List.map_congr_left
+      intro t ht
+      have h1 : absW P s.sh.len t = .wait ((abs P s).wr + 1) := hpark _ (List.mem_map_of_mem ht)
+      rw [h1]
+      exact absW_len_indep P t (T.lenW _ (hS.wst t ht)) s.sh.len L _ h1
+    have hi : istep P s (.apply L) =
+        { s with ctl := { s.ctl with stack := [⟨.apply, 0⟩] }, sh := { s.sh with len := L, cnt := fun _ => 0 } } := by
+      simp [istep, hst]
+    have hm : absM P L { s.ctl with stack := [⟨.apply, 0⟩] } = .setIdx := absM_entry P T L _ _ _
+    refine ⟨Or.inr ?_, ?_, ?_⟩
+    · have hstep : step (abs P s) (.apply L) = { abs P s with len := L, cnt := fun _ => 0, m := .setIdx } := by
+        simp only [step, hidle]
+      rw [hstep, hi]
+      simp only [abs_eq, hm, hws]
+      rfl
+    · rw [hi]; exact T.entryMem
+    · rw [hi]; intro h; simp only [hm, phaseA] at h; cases h
+
+theorem sim_step (P : Progs) (T : Tables P) (n : Nat) (s : IState) (e : Ev) (hS : Sim P n s) : Sim P n (istep P s e) := by
+  obtain ⟨es', hes⟩ := hS.reach
+  have hreach : ∀ s', (abs P s' = abs P s ∨ abs P s' = step (abs P s) e) → ∃ es'', abs P s' = run (init n) es'' := by
+    intro s' h
+    rcases h with h | h
+    · exact ⟨es', by rw [h, hes]⟩
+    · exact ⟨es' ++ [e], by rw [h, hes, run_append]; rfl⟩
+  cases e with
+  | apply L =>
+    obtain ⟨h1, h2, h3⟩ := abs_apply P T n s L hS
+    refine ⟨h2, ?_, h3, hreach _ h1⟩
+    have : (istep P s (.apply L)).ws = s.ws := by
+      simp only [istep]; split <;> rfl
+    rw [this]; exact hS.wst
+  | thr t =>
+    cases t with
+    | zero =>
+      obtain ⟨h1, h2⟩ := abs_master P T s hS.cst hS.clen
+      exact ⟨opStep_mem P .apply T.closedM _ _ _ hS.cst, hS.wst, h2, hreach _ h1⟩
+    | succ k =>
+      have h1 := abs_worker P T s k hS.wst
+      cases hk : s.ws[k]? with
+      | none =>
+        have : istep P s (.thr (k + 1)) = s := by simp [istep, hk]
+        rw [this]; exact hS
+      | some t =>
+        have htm : t ∈ s.ws := List.mem_of_getElem? hk
+        have hi : istep P s (.thr (k + 1)) =
+            { s with ws := s.ws.set k (opStep P (s.ws.length + 1) t s.sh).1, sh := (opStep P (s.ws.length + 1) t s.sh).2 } := by
+          simp [istep, hk]
+        have hlen := opStep_len P (s.ws.length + 1) t s.sh
+        refine ⟨?_, ?_, ?_, hreach _ h1⟩
+        · rw [hi]; exact hS.cst
+        · rw [hi]
+          intro t' ht'
+          rcases List.mem_or_eq_of_mem_set ht' with h | h
+          · exact hS.wst t' h
+          · rw [h]; exact opStep_mem P .workerMain T.closedW _ _ _ (hS.wst t htm)
+        · rw [hi]; simp only [hlen]; exact hS.clen
+
+theorem sim_run (P : Progs) (T : Tables P) (n : Nat) (es : List Ev) (s : IState) (hS : Sim P n s) : Sim P n (irun P s es) := by
+  induction es generalizing s with
+  | nil => exact hS
+  | cons e es ih => exact ih _ (sim_step P T n s e hS)
+
+/-- every state of the interpretation of the generated programs is, through `abs`, a reachable state of the hand-written system -/
+theorem sim_reach (m : Mode) (n : Nat) (es : List Ev) : Sim (progs m) n (irun (progs m) (iinit n) es) :=
+  sim_run _ (tables m) n es _ (sim_init _ (tables m) n)
+
 end SgVerif.C49
